@@ -953,13 +953,9 @@ caption_command(vbi_decoder *vbi, struct caption *cc,
 			set_cursor(ch, 1, row);
 
 		if (c2 & 0x10) {
-			col = ch->col;
-
-			for (i = (c2 & 14) * 2; i > 0 && col < COLUMNS - 1; i--)
-				ch->line[col++] = cc->transp_space[chan >> 2];
-
-			if (col > ch->col)
-				ch->col = ch->col1 = col;
+			/* EIA 608-B Annex C.7: A PAC has no immediate effect
+			   on the display, the indent only moves the cursor. */
+			ch->col = ch->col1 = 1 + (c2 & 14) * 2;
 
 			ch->attr.italic = FALSE;
 			ch->attr.foreground = VBI_WHITE;
@@ -1215,13 +1211,14 @@ caption_command(vbi_decoder *vbi, struct caption *cc,
 		switch (c2) {
 		case 0x21 ... 0x23:	/* Misc Control Codes, Tabs	001 c111  010 00xx */
 // not verified
-			col = ch->col;
+			/* Tab Offsets move the cursor without
+			   erasing the columns passed over. */
+			col = ch->col + (c2 & 3);
 
-			for (i = c2 & 3; i > 0 && col < COLUMNS - 1; i--)
-				ch->line[col++] = cc->transp_space[chan >> 2];
+			if (col > COLUMNS - 1)
+				col = COLUMNS - 1;
 
-			if (col > ch->col)
-				ch->col = ch->col1 = col;
+			ch->col = ch->col1 = col;
 
 			return;
 
